@@ -414,6 +414,45 @@ theorem stack_pairs_doses (fft : FFT Img ℝ H W) (px : ℝ) (stack : List Img) 
   intro i hi
   simp [List.getElem?_zipWith, List.getElem?_eq_getElem hi, List.getElem?_eq_getElem (show i < doses.length by omega)]
 
+omit [Add Img] [SMul ℝ Img] in
+/-- the stack filter written out -/
+theorem filtStack_eq (px : ℝ) (stack : List Img) (doses : List ℝ) (h : stack.length ≤ doses.length) :
+    filtStack fft px stack doses = some (List.zipWith (fun x d => filt fft px d x) stack doses) := by
+  unfold filtStack doseFilter; rw [if_neg (by omega)]
+
+/-- **the composition clause for whole stacks**: filtering a stack with the per-image doses `d₁` and the result with `d₂`
+equals filtering it once with the image-wise sums `d₁[i] + d₂[i]` — every stack length, any order of the doses
+(surplus doses are ignored on both sides) -/
+theorem stack_compose (hD : IsDFT fft) (px : ℝ) (stack : List Img) (d₁ d₂ : List ℝ)
+    (h₁ : stack.length ≤ d₁.length) (h₂ : stack.length ≤ d₂.length) :
+    (filtStack fft px stack d₁).bind (fun s => filtStack fft px s d₂)
+      = filtStack fft px stack (List.zipWith (· + ·) d₁ d₂) := by
+  rw [filtStack_eq px stack d₁ h₁, Option.bind_some,
+    filtStack_eq px _ d₂ (by simp; omega), filtStack_eq px stack _ (by simp; omega)]
+  congr 1
+  induction stack generalizing d₁ d₂ with
+  | nil => simp
+  | cons x xs ih =>
+    cases d₁ with
+    | nil => simp at h₁
+    | cons a as =>
+      cases d₂ with
+      | nil => simp at h₂
+      | cons b bs =>
+        simp only [List.zipWith_cons_cons, List.cons.injEq]
+        refine ⟨filter_compose hD px a b x, ih as bs ?_ ?_⟩
+        · simpa using h₁
+        · simpa using h₂
+
+/-- **zero dose is the identity on stacks**: an all-zero dose list returns the stack itself, image by image -/
+theorem stack_zero_dose (hD : IsDFT fft) (px : ℝ) (stack : List Img) :
+    filtStack fft px stack (List.replicate stack.length 0) = some stack := by
+  rw [filtStack_eq px stack _ (by simp)]
+  congr 1
+  induction stack with
+  | nil => rfl
+  | cons x xs ih => simp only [List.length_cons, List.replicate_succ, List.zipWith_cons_cons, filter_zero_dose hD, ih]
+
 end image
 
 /-! ### every image size: the exact 2-D DFT over ℂ is such a service, so the image-level clauses hold without hypothesis
@@ -465,6 +504,17 @@ example (hH : 0 < H) (hW : 0 < W) (px d : ℝ) (x : ImgN H W) :
     (fun y : ImgN H W => (∑ a : Fin H, ∑ b : Fin W, y a b) / ((H : ℝ) * (W : ℝ))) (filt (dftN H W) px d x)
       = (∑ a : Fin H, ∑ b : Fin W, x a b) / ((H : ℝ) * (W : ℝ)) :=
   filter_mean (dftN_isDFT hH hW) px d x hH hW _ (fun y => by rw [dftN_dc y hH hW])
+
+/-- **stacks of every size**: the composition and zero-dose clauses for stacks of `H × W` images with the exact DFT — no hypothesis -/
+theorem dft_stack_compose (hH : 0 < H) (hW : 0 < W) (px : ℝ) (stack : List (ImgN H W)) (d₁ d₂ : List ℝ)
+    (h₁ : stack.length ≤ d₁.length) (h₂ : stack.length ≤ d₂.length) :
+    (filtStack (dftN H W) px stack d₁).bind (fun s => filtStack (dftN H W) px s d₂)
+      = filtStack (dftN H W) px stack (List.zipWith (· + ·) d₁ d₂) :=
+  stack_compose (dftN_isDFT hH hW) px stack d₁ d₂ h₁ h₂
+
+theorem dft_stack_zero_dose (hH : 0 < H) (hW : 0 < W) (px : ℝ) (stack : List (ImgN H W)) :
+    filtStack (dftN H W) px stack (List.replicate stack.length 0) = some stack :=
+  stack_zero_dose (dftN_isDFT hH hW) px stack
 
 end everysize
 
